@@ -239,4 +239,124 @@ example :
     srcNearby .f (.num 2) 2 [(0, .num 1), (1, .num 1), (-1, .num 2), (0, .num 2), (1, .num 9), (0, .num 3)]
       = [0, 1, -1, 0, 2, 0] := by unfold srcNearby; decide
 
+/-! ### rolling kernels (translated source): null-key rows are inert -/
+
+theorem WindowFn.null_rows_inert {P : List CRow → Prop} {out : List CRow → Int → Val} {F : List Val → Val}
+    (h : C05.WindowFn P out F) (hP : ∀ rows, P rows → P (dropNull rows))
+    (rows : List CRow) (i : Nat) (r : CRow) (hp : P rows) (hi : rows[i]? = some r) (hg : 0 ≤ r.code) (hs : r.sel = true) :
+    out rows (i : Int) = out (dropNull rows) (rankNonNull rows i : Int) := by
+  obtain ⟨hf, hv⟩ := dropNull_at_rank rows i r hi hg
+  rw [h rows i r hp hi hg hs, h (dropNull rows) (rankNonNull rows i) r (hP rows hp) hf hg hs, hv r.code hg]
+
+/-- **rolling sum / mean (translated source)**: deleting the null-key rows leaves every other row's cell unchanged -/
+theorem source_rolling_sum_null_rows_inert (k : Kind) (divf : Val → Int → Val) (op : RollOp) (hop : op = .sum ∨ op = .mean)
+    (w : Nat) (hw : 0 < w) (minp : Option Nat) (ng : Int) (hnv : LoopBridge.NumOrNull k (nullValue k))
+    (rows : List CRow) (hwf : ∀ r ∈ rows, LoopBridge.NumOrNull k r.val) (i : Nat) (r : CRow)
+    (hi : rows[i]? = some r) (hg : 0 ≤ r.code) (hs : r.sel = true) :
+    C05.srcRollSum k divf op w minp ng rows (i : Int)
+      = C05.srcRollSum k divf op w minp ng (dropNull rows) (rankNonNull rows i : Int) :=
+  WindowFn.null_rows_inert (C05.srcRollSum_window k divf op hop w hw minp ng hnv)
+    (fun rows hp r hr => hp r (List.mem_filter.mp hr).1) rows i r hwf hi hg hs
+
+/-- **rolling max / min (translated source)**: the same -/
+theorem source_rolling_max_null_rows_inert (k : Kind) (wantMax : Bool) (w : Nat) (hw : 0 < w) (minp : Option Nat)
+    (hminp : 0 < minp.getD w) (ng : Int) (rows : List CRow) (hwf : ∀ r ∈ rows, WF k r.val)
+    (hnan : ∀ r ∈ rows, r.val = .nan → nullValue k = .nan) (i : Nat) (r : CRow)
+    (hi : rows[i]? = some r) (hg : 0 ≤ r.code) (hs : r.sel = true) :
+    C05.srcRollMax k wantMax w minp ng rows (i : Int)
+      = C05.srcRollMax k wantMax w minp ng (dropNull rows) (rankNonNull rows i : Int) :=
+  WindowFn.null_rows_inert (C05.srcRollMax_window k wantMax w hw minp hminp ng)
+    (fun rows hp => ⟨fun r hr => hp.1 r (List.mem_filter.mp hr).1, fun r hr => hp.2 r (List.mem_filter.mp hr).1⟩)
+    rows i r ⟨hwf, hnan⟩ hi hg hs
+
+/-- non-vacuity: rolling sum over window 2, a null-key row between the rows of group 0 -/
+example :
+    let rows : List CRow := [⟨0, .num 3, true⟩, ⟨-1, .num 50, true⟩, ⟨0, .num 4, true⟩, ⟨0, .num 5, true⟩]
+    (C05.srcRollSum .f (fun a _ => a) .sum 2 none 1 rows 3,
+      C05.srcRollSum .f (fun a _ => a) .sum 2 none 1 (dropNull rows) 2, rankNonNull rows 3) = (.num 9, .num 9, 2) := by
+  unfold C05.srcRollSum; decide
+
+/-! ### EMA (translated `_ema_grouped`): null-key rows are inert -/
+
+/-- the translated `_ema_grouped` on a list of (code, value) rows, no mask -/
+def srcEma (k : Kind) (β : Rat) (ng : Int) (rows : List (Int × FVal)) : Int → FVal :=
+  (Generated.Loops.ema_grouped k (rows.map (·.1)).length (arrOf (rows.map (·.1)) 0) (rows.map (·.2)).length
+    (arrOf (rows.map (·.2)) .nan) (.q (1 - β)) ng false 0 (arrOf [] true)).1
+
+def dropNullP {α : Type} (rows : List (Int × α)) : List (Int × α) := rows.filter (fun r => decide (0 ≤ r.1))
+
+def rankNonNullP {α : Type} (rows : List (Int × α)) (i : Nat) : Nat := (dropNullP (rows.take i)).length
+
+theorem emaRows_of_rows (rows : List (Int × FVal)) :
+    LoopBridge.emaRows (rows.map (·.1)) (rows.map (·.2)) false [] = rows.map fun r => (r.1, LoopBridge.obsOf r.2 false) := by
+  unfold LoopBridge.emaRows
+  apply List.ext_getElem?
+  intro i
+  rw [List.getElem?_map, List.length_map, List.getElem?_map]
+  by_cases hi : i < rows.length
+  · rw [List.getElem?_range hi, List.getElem?_eq_getElem hi]
+    simp [List.getD_eq_getElem?_getD, List.getElem?_eq_getElem hi]
+  · rw [List.getElem?_eq_none_iff.mpr (by simpa using hi), List.getElem?_eq_none_iff.mpr (by omega)]
+    rfl
+
+theorem dropNullP_at_rank {α : Type} (rows : List (Int × α)) (i : Nat) (r : Int × α) (hi : rows[i]? = some r)
+    (hc : 0 ≤ r.1) :
+    (dropNullP rows)[rankNonNullP rows i]? = some r ∧
+      (dropNullP rows).take (rankNonNullP rows i) = dropNullP (rows.take i) := by
+  have hlt : i < rows.length := by
+    rcases Nat.lt_or_ge i rows.length with h | h
+    · exact h
+    · rw [List.getElem?_eq_none_iff.mpr h] at hi; simp at hi
+  have hr : rows[i] = r := by
+    have := List.getElem?_eq_getElem hlt
+    rw [this] at hi; exact Option.some.inj hi
+  have hsplit : dropNullP rows = dropNullP (rows.take i) ++ r :: dropNullP (rows.drop (i + 1)) := by
+    conv => lhs; rw [← List.take_append_drop i rows, List.drop_eq_getElem_cons hlt, hr]
+    simp [dropNullP, List.filter_append, List.filter_cons, hc]
+  constructor
+  · rw [hsplit]; simp [rankNonNullP]
+  · rw [hsplit]; simp [rankNonNullP, List.take_append]
+
+/-- **EMA (translated source)**: at every row with a non-null key the translated `_ema_grouped` writes what it writes,
+at the row's rank, on the data with the null-key rows deleted; a null-key row gets NaN -/
+theorem source_ema_null_rows_inert (k : Kind) (β : Rat) (hβ : 0 ≤ β) (ng : Int) (rows : List (Int × FVal))
+    (i : Nat) (r : Int × FVal) (hi : rows[i]? = some r) (hc : 0 ≤ r.1) :
+    srcEma k β ng rows (i : Int) = srcEma k β ng (dropNullP rows) (rankNonNullP rows i : Int) := by
+  have hlt : i < rows.length := by
+    rcases Nat.lt_or_ge i rows.length with h | h
+    · exact h
+    · rw [List.getElem?_eq_none_iff.mpr h] at hi; simp at hi
+  obtain ⟨hf, htk⟩ := dropNullP_at_rank rows i r hi hc
+  have hlt' : rankNonNullP rows i < (dropNullP rows).length := by
+    rcases Nat.lt_or_ge (rankNonNullP rows i) (dropNullP rows).length with h | h
+    · exact h
+    · rw [List.getElem?_eq_none_iff.mpr h] at hf; simp at hf
+  have h1 := C10.source_ema_eq_model k β hβ (rows.map (·.1)) (rows.map (·.2)) [] false ng 0 (by simp) i (by simpa using hlt)
+  have h2 := C10.source_ema_eq_model k β hβ ((dropNullP rows).map (·.1)) ((dropNullP rows).map (·.2)) [] false ng 0
+    (by simp) (rankNonNullP rows i) (by simpa using hlt')
+  unfold srcEma
+  rw [h1, h2, emaRows_of_rows, emaRows_of_rows]
+  unfold LoopBridge.emaCell
+  have hobs : ∀ l : List (Int × FVal), dropNullP (l.map fun r => (r.1, LoopBridge.obsOf r.2 false))
+      = (dropNullP l).map fun r => (r.1, LoopBridge.obsOf r.2 false) := by
+    intro l; simp [dropNullP, List.filter_map, Function.comp_def]
+  rw [ema_null_rows_inert β (rows.map fun r => (r.1, LoopBridge.obsOf r.2 false))
+    ((dropNullP rows).map fun r => (r.1, LoopBridge.obsOf r.2 false)) i (rankNonNullP rows i)
+    (r.1, LoopBridge.obsOf r.2 false) (by simp [hi]) (by simp [hf]) hc ?_]
+  -- the group's history is the same on both sides
+  rw [← List.map_take, ← List.map_take, htk, ← hobs]
+  simp only [C10.groupVals, dropNullP, List.filter_filter]
+  congr 1
+  apply List.filter_congr
+  intro x _
+  by_cases e : x.1 = r.1
+  · simp [e, hc]
+  · simp [e]
+
+/-- non-vacuity: `alpha = 1/2`, a null-key row between the two rows of group 0 -/
+example :
+    let rows : List (Int × FVal) := [(0, .q 1), (-1, .q 50), (0, .q 3)]
+    (srcEma .f (1 / 2) 1 rows 2, srcEma .f (1 / 2) 1 (dropNullP rows) 1, rankNonNullP rows 2) = (.q (7 / 3), .q (7 / 3), 1) := by
+  unfold srcEma; decide +kernel
+
 end GV.C06
